@@ -28,7 +28,9 @@ func (c *ctx) tapFindings() {
 func (c *ctx) allocBound() {
 	delivered := map[int]int64{}
 	for _, e := range c.r.Events {
-		if e.Kind == "deliver" || e.Kind == "deliver-s2c" || e.Kind == "cli-send" || e.Kind == "msrv-send" {
+		// bytes in play in a step: delivered, sent by the model peers, or written by the real
+		// client (which builds, obfuscates and marshals its own packet in that step)
+		if e.Kind == "deliver" || e.Kind == "deliver-s2c" || e.Kind == "cli-send" || e.Kind == "msrv-send" || e.Kind == "cwrite" {
 			delivered[e.Step] += e.A
 			if e.Kind == "msrv-send" {
 				delivered[e.Step] += int64(len(e.Bytes))
